@@ -36,6 +36,13 @@ if get_qrules_version() < (0, 10):
     )
 
 
+def _to_subsystem_id(value):
+    """Convert values that equal a subsystem ID, like :code:`1.0`, to that `int`."""
+    if isinstance(value, (int, float)) and value in {1, 2, 3}:
+        return int(value)
+    return value
+
+
 @define
 class DalitzPlotDecomposition(SpinAlignment):
     """Alignment amplitudes with the "axis-angle" method.
@@ -44,7 +51,9 @@ class DalitzPlotDecomposition(SpinAlignment):
     <https://en.wikipedia.org/wiki/Wigner_rotation>`_.
     """
 
-    reference_subsystem: Literal[1, 2, 3] = field(validator=in_({1, 2, 3}))
+    reference_subsystem: Literal[1, 2, 3] = field(
+        converter=_to_subsystem_id, validator=in_({1, 2, 3})
+    )
 
     def formulate_amplitude(self, reaction: ReactionInfo) -> sp.Expr:
         return _formulate_aligned_amplitude(reaction, self.reference_subsystem)[0]
